@@ -721,16 +721,48 @@ pub fn gen_history(seed: u64, class: Class, max_steps: usize) -> (History, Swarm
                     layer,
                     sboms: gen_sboms(&mut g.r, &sw),
                 }),
-                K_WEXECD => batch.push(Op::WriteExecD {
-                    layer,
-                    progs: gen_execd(&mut g.r, sw.errors),
-                }),
+                K_WEXECD => {
+                    let progs = gen_execd(&mut g.r, sw.errors);
+                    if progs.len() >= 2 && progs[0].name != progs[1].name && g.r.chance(1, 4) {
+                        // two program names become one file (link), then both are rewritten
+                        // with different contents
+                        let (from, to) = (progs[0].name.clone(), progs[1].name.clone());
+                        let mut again = progs.clone();
+                        for (k, pr) in again.iter_mut().enumerate() {
+                            pr.source = (pr.source + 1 + k) % EXECD_SOURCES;
+                        }
+                        batch.push(Op::WriteExecD { layer, progs });
+                        batch.push(Op::ExecDAlias { layer, from, to, hard: g.r.bool() });
+                        batch.push(Op::WriteExecD { layer, progs: again });
+                    } else {
+                        batch.push(Op::WriteExecD { layer, progs });
+                    }
+                }
                 K_FILE => {
                     let depth = if class == Class::C11 { 6 } else { 3 };
-                    batch.push(Op::PlainFile {
-                        layer,
-                        file: gen_file(&mut g.r, &sw, depth),
-                    });
+                    let mut file = gen_file(&mut g.r, &sw, depth);
+                    match g.r.below(16) {
+                        // neighbours whose names merely start like the env directories
+                        0 | 1 => {
+                            file.path = g.r.pick(&["env.d/10-x.sh", "env.sh", "env.example", "environment/FOO.override", "env.launch.bak/X", "envoy"]).as_bytes().to_vec();
+                        }
+                        // a stray file where the exec.d directory would be
+                        2 => file.path = b"exec.d".to_vec(),
+                        _ => {}
+                    }
+                    let stray_execd = file.path == b"exec.d";
+                    batch.push(Op::PlainFile { layer, file });
+                    if stray_execd {
+                        // ... and the next thing is a program set written next to it (mostly empty)
+                        let progs = if g.r.chance(2, 3) { Vec::new() } else { gen_execd(&mut g.r, false) };
+                        batch.push(Op::WriteExecD { layer, progs });
+                    }
+                    if g.r.chance(1, 12) {
+                        batch.push(Op::ChmodLayer {
+                            layer,
+                            mode: *g.r.pick(&[0o555, 0o500, 0o755, 0o700]),
+                        });
+                    }
                 }
                 K_MKDIR => {
                     let depth = if class == Class::C11 { 6 } else { 3 };
@@ -753,7 +785,10 @@ pub fn gen_history(seed: u64, class: Class, max_steps: usize) -> (History, Swarm
                 }
                 K_TOPLINK => {
                     // immediately followed by a deleting request on that layer
-                    if g.r.bool() {
+                    let which = g.r.below(5);
+                    if which == 4 {
+                        batch.push(Op::TomlLink { layer, abs: g.r.bool() });
+                    } else if which < 2 {
                         batch.push(Op::TopSymlink {
                             layer,
                             abs: g.r.bool(),
